@@ -56,7 +56,7 @@ type Case struct {
 	Val    []FieldV `json:"val"`
 }
 
-const rule = "struct types generated with reflect.StructOf from a spec: 1..6 fields per level, each a dictionary name of the message's application (dict.Default, the per-file embedded dictionaries, generated dictionaries with all 18 type names) x shape {datatype type | another datatype type that converts losslessly (string kinds among themselves, wider integer / float) | lossless native Go type} x {T, *T, []T, []*T}, diam.AVP / *diam.AVP / []*diam.AVP, struct / *struct / []struct / []*struct for grouped AVPs to depth 3, embedded untagged struct, embedded tagged struct x tag form {avp:\"N\", avp:\"N,omitempty\", each alone / after / before a json key}; no code twice per struct level; slices optionally with spare capacity; optionally a second value sharing the slices of the first is marshalled into another message afterwards (the first message must not change); the message marshalled into is fresh from NewMessage or (3 in 8) already used: carries AVPs added with AddAVP, or the same / a zero value of the struct was marshalled into it before; values incl. zero numbers, empty strings, nil pointers, nil and empty slices; non-trivial = at least 2 fields in total and at least one pointer / slice / nested / embedded shape; distinct by hash of the JSON form of the case"
+const rule = "struct types generated with reflect.StructOf from a spec: 1..6 fields per level, each a dictionary name of the message's application (dict.Default, the per-file embedded dictionaries, generated dictionaries with all 18 type names) x shape {datatype type | another datatype type that converts losslessly (string kinds among themselves, wider integer / float) | lossless native Go type} x {T, *T, []T, []*T}, diam.AVP / *diam.AVP / []*diam.AVP / []diam.AVP, struct / *struct / []struct / []*struct for grouped AVPs to depth 3, embedded untagged struct, embedded tagged struct x tag form {avp:\"N\", avp:\"N,omitempty\", each alone / after / before a json key}; no code twice per struct level; slices optionally with spare capacity; optionally a second value sharing the slices of the first is marshalled into another message afterwards (the first message must not change); the message marshalled into is fresh from NewMessage or (3 in 8) already used: carries AVPs added with AddAVP, or the same / a zero value of the struct was marshalled into it before; values incl. zero numbers, empty strings, nil pointers, nil and empty slices; non-trivial = at least 2 fields in total and at least one pointer / slice / nested / embedded shape; distinct by hash of the JSON form of the case"
 
 var prop = ev.Register(&ev.Prop[Case]{
 	ID: "C18", Name: "struct", Rule: rule,
